@@ -96,7 +96,31 @@ func (m *Model) RunPathAPI(s *Sink, rule string) {
 		s.Undecided(rule, "findTextwireFiles", "-", "not found")
 	} else {
 		found := false
-		for _, cl := range ftf.AnonFuncs {
+		// the callbacks: function literals of the walker, and whatever function or method value is handed to Walk / WalkDir
+		callbacks := append([]*ssa.Function{}, ftf.AnonFuncs...)
+		for _, b := range ftf.Blocks {
+			for _, in := range b.Instrs {
+				c, ok := in.(*ssa.Call)
+				if !ok || c.Call.StaticCallee() == nil || len(c.Call.Args) < 2 {
+					continue
+				}
+				if n := fnFullName(c.Call.StaticCallee()); n != "path/filepath.Walk" && n != "path/filepath.WalkDir" {
+					continue
+				}
+				if f := boundMethod(m, c.Call.Args[1]); f != nil && f.Blocks != nil {
+					dup := false
+					for _, x := range callbacks {
+						if x == f {
+							dup = true
+						}
+					}
+					if !dup {
+						callbacks = append(callbacks, f)
+					}
+				}
+			}
+		}
+		for _, cl := range callbacks {
 			for _, b := range cl.Blocks {
 				for _, in := range b.Instrs {
 					mu, ok := in.(*ssa.MapUpdate)
